@@ -842,6 +842,8 @@ func (fr *frame) unop(x *ssa.UnOp) Value {
 			return norm(x.Type(), -n.v)
 		case float64:
 			return -n
+		case SymF:
+			return symFloat(mkFPNeg(n.t))
 		case Sym:
 			w, _ := width(x.Type())
 			return Sym{mkBin(OSub, mkConst(0, w), n.t)}
